@@ -130,7 +130,56 @@ def batch_harness(root, arrayer=False):
             "shim_modules": shim_modules, "pending": lambda ex: len(ex.pending_batch_jobs) + ex.arrayer.num_pending, "running": lambda ex: ex.is_running}
 
 
-HARNESSES = {"docker": docker_harness, "aws_batch": batch_harness, "aws_batch+arrayer": lambda root: batch_harness(root, arrayer=True)}
+# ------------------------------------------------------------------------------------------------ aws glue
+def glue_harness(root):
+    """AWSGlueExecutor: a monitor thread plus a submission thread; Glue API faked (every started run is reported SUCCEEDED when described)."""
+    import redun.executors.aws_glue as mod
+    from redun.config import Config
+    from redun.file import File
+
+    conf = Config({"e": {"s3_scratch": os.path.join(root, "scratch"), "role": "arn:role", "job_monitor_interval": "1", "job_retry_interval": "1",
+                         "code_package": "False", "aws_region": "us-west-2"}})["e"]
+    runs = {}
+    counter = [0]
+
+    def submit_glue_job(job, a_task, **kw):
+        counter[0] += 1
+        rid = f"run{counter[0]}"
+        runs[rid] = job
+        return {"JobRunId": rid, "ResponseMetadata": {"RetryAttempts": 0}}
+
+    def glue_describe_jobs(job_ids, glue_job_name=None, aws_region=None):
+        for rid in job_ids:
+            yield {"Id": rid, "JobRunState": "SUCCEEDED", "LogGroupName": "lg"}
+
+    class Exc:
+        class ConcurrentRunsExceededException(Exception):
+            pass
+
+        class ResourceNumberLimitExceededException(Exception):
+            pass
+
+    fake_client = types.SimpleNamespace(exceptions=Exc)
+
+    def get_or_create_job_definition(self):
+        self.glue_job_name = "REDUN-job"
+        self.redun_zip_location = "zip"
+        self.code_file = File(os.path.join(root, "code.zip"))
+
+    from redun.executors import aws_utils
+
+    patches = [(mod, "submit_glue_job", submit_glue_job), (mod, "glue_describe_jobs", glue_describe_jobs), (mod, "parse_job_result", lambda scratch, job: (1, True)),
+               (aws_utils, "get_aws_client", lambda service, aws_region=None: fake_client),
+               (mod.AWSGlueExecutor, "get_or_create_job_definition", get_or_create_job_definition),
+               (mod.AWSGlueExecutor, "gather_inflight_jobs", lambda self: None)]
+    ex_cls = mod.AWSGlueExecutor
+    funcs = [ex_cls._start, ex_cls.stop, ex_cls._monitor, ex_cls._submission_thread, ex_cls._process_job_status, ex_cls.submit, ex_cls.submit_pending_job]
+    return {"mod": mod, "cls": "AWSGlueExecutor", "conf": conf, "patches": patches, "funcs": funcs, "thread": lambda ex: ex._monitor_thread,
+            "shim_modules": [mod], "pending": lambda ex: len(ex.pending_glue_jobs) + len(ex.running_glue_jobs), "running": lambda ex: ex.is_running,
+            "all_threads": lambda ex: [ex._monitor_thread, ex._submit_thread]}
+
+
+HARNESSES = {"docker": docker_harness, "aws_glue": glue_harness, "aws_batch": batch_harness, "aws_batch+arrayer": lambda root: batch_harness(root, arrayer=True)}
 
 
 def scenario(case, prefix):
@@ -165,8 +214,8 @@ def scenario(case, prefix):
                 th.csleep(0.1)  # the scheduler thread goes back to its event loop between submissions (for `pause` turns of the other threads)
 
         def quiet():
-            t = get_thread(ex)
-            return len(fs.reported) >= len(jobs) or t is None or not t.is_alive()
+            ts = H["all_threads"](ex) if "all_threads" in H else [get_thread(ex)]
+            return len(fs.reported) >= len(jobs) or all(t is None or not t.is_alive() for t in ts)
 
         s.block_until(quiet, ("main-wait",))
         res["alive"] = bool(get_thread(ex) and get_thread(ex).is_alive())
@@ -228,6 +277,7 @@ def run(ctx):
     cap = 10**7
     if ctx.quick:
         cases = [({"executor": "docker", "jobs": 2, "pause": 1}, 2), ({"executor": "aws_batch", "jobs": 2, "pause": 3}, 1),
+                 ({"executor": "aws_glue", "jobs": 2, "pause": 3}, 1),
                  ({"executor": "aws_batch", "jobs": 2, "pause": 1}, 1), ({"executor": "aws_batch+arrayer", "jobs": 2, "pause": 3}, 1)]
     else:
         cases = [({"executor": e, "jobs": n, "pause": pz}, 3 if e == "docker" else 2) for e in HARNESSES for n in (2, 3) for pz in (1, 3)]
